@@ -56,7 +56,7 @@ def build(rnd, focus=False):
                                         membership=mem(), **({"mechatronics": ice_} if mixed and i == 2 else {}))
                 for i in range(3)]
     sim = mock_sim(vehicles=tuple(vehicles), stations=tuple(stations), bases=tuple(bases), sim_time=SimTime(600),
-                   sim_timestep_duration_seconds=rnd.choice([1, 7, 60]))
+                   sim_timestep_duration_seconds=rnd.choice([1, 7, 60, 90]))
     for i in range(2):
         o, d = rnd.sample(CELLS, 2)
         sim = ops.add_entity(sim, mock_request_from_geoids(request_id=f"r{i}", origin=o, destination=d, departure_time=SimTime(500),
@@ -189,9 +189,9 @@ def freeze(x, depth=0):
     if isinstance(x, (str, int, float, bool, type(None))):
         return x
     if isinstance(x, tuple) and hasattr(x, "_fields"):
-        return (type(x).__name__,) + tuple((f, freeze(getattr(x, f), depth + 1)) for f in x._fields)
+        return (type(x).__name__,) + tuple((f, freeze(getattr(x, f), depth + 1)) for f in x._fields if f != "instance_id")
     if dataclasses.is_dataclass(x) and not isinstance(x, type):
-        return (type(x).__name__,) + tuple((f.name, freeze(getattr(x, f.name), depth + 1)) for f in dataclasses.fields(x))
+        return (type(x).__name__,) + tuple((f.name, freeze(getattr(x, f.name), depth + 1)) for f in dataclasses.fields(x) if f.name != "instance_id")
     if isinstance(x, (immutables.Map, dict)):
         return ("map",) + tuple(sorted(((repr(k), freeze(v, depth + 1)) for k, v in x.items()), key=lambda kv: kv[0]))
     if isinstance(x, (set, frozenset)):
@@ -211,7 +211,7 @@ ORACLES = {"C03": (lambda sim: None), "C02": check_C02, "C07": check_C07, "C08":
 
 def scenario(pid, seed):
     rnd = random.Random(seed)
-    focus = pid in ("C05", "C04") and seed % 2 == 1          # every other scenario of the energy properties is charging-focused
+    focus = pid in ("C05", "C04", "C16") and seed % 2 == 1          # every other scenario of the energy properties is charging-focused
     sim, env = build(rnd, focus)
     initial = {v.id: dict(v.energy) for v in sim.vehicles.values()}
     trace = []
@@ -232,9 +232,15 @@ def scenario(pid, seed):
                 if sim.vehicles[vid] == before.vehicles[vid] and sim != before:
                     return f"rejected {ins} changed the state", trace
         else:
+            before_update = sim
             sim = perform_vehicle_state_updates(sim, env)
             sim = ops.tick(sim)
             trace.append("update+tick")
+            if pid == "C16":
+                # stepping the same saved state twice gives the same result (random activity-instance ids aside)
+                again = ops.tick(perform_vehicle_state_updates(before_update, env))
+                if sim_fp(again) != sim_fp(sim):
+                    return f"stepping the state saved before operation {len(trace)} a second time gives a different result", trace
         if pid == "C16":
             msg = None
             for k_, (old, fp_) in enumerate(saved):
@@ -260,9 +266,15 @@ def search_C06(seed):
     ring = sorted(h3.k_ring(h3.h3_to_parent(somewhere(), 8), 3))
     pts = [h3.h3_to_center_child(c, 15) for c in rnd.sample(ring, rnd.randint(2, 6))]
     route = tuple(LinkTraversal.build(geoids_to_link_id(a, b), a, b, speed_kmph=40) for a, b in zip(pts, pts[1:]))
+    if rnd.random() < 0.3:
+        # the vehicle stands exactly at the end of its current link: the route starts with a zero-length piece
+        route = (LinkTraversal.build(geoids_to_link_id(pts[0], pts[0]), pts[0], pts[0], speed_kmph=40),) + route
     remaining = route
-    for step in range(40):
+    pos = route[0].start
+    for step in range(60):
         if not remaining:
+            if pos != route[-1].end:
+                return f"the route of {len(route)} links is reported as consumed at {pos}, its destination is {route[-1].end}"
             break
         dur = rnd.choice([1, 7, 20, 45, 60, 90])
         err, t = traverse(remaining, dur, rn)
@@ -281,6 +293,8 @@ def search_C06(seed):
         if not t.experienced_route and dur >= 20:
             return f"step {step}: no progress in {dur} s"
         remaining = t.remaining_route
+        if t.experienced_route:
+            pos = t.experienced_route[-1].end
     return None
 
 
